@@ -39,6 +39,81 @@ def callees(fn):
     return out
 
 
+def fold_scan(fn):
+    """the arg-min scan written as a fold: `rows().enumerate()[.skip(1)].fold(init, |acc, (i, row)| { let d = rdistance(row, x);
+    if d < acc.1 { (i, d) } else { acc } })`.  Returns dict(cond, verdict, pair, coverage, chain, ln) or None."""
+    c = fn["crate"]
+    r = Render(c)
+    for n in walk(fn["body"]):
+        if n.get("k") != "MethodCall" or n["name"] != "fold" or len(n["args"]) != 2:
+            continue
+        clo = strip(n["args"][1])
+        if clo.get("k") != "Closure" or len(clo["params"]) != 2:
+            continue
+        if not any(y.get("k") == "MethodCall" and y["name"] == "rdistance" for y in walk(clo["body"])):
+            continue
+        accs = set(b["local"] for b in pat_bindings(clo["params"][0]))
+        items = set(b["local"] for b in pat_bindings(clo["params"][1]))
+        dist_locals = set()
+        for y in walk(clo["body"]):
+            if y.get("k") == "LetStmt" and y.get("init") is not None and any(z.get("k") == "MethodCall" and z["name"] == "rdistance" for z in walk(y["init"])):
+                for b in pat_bindings(y["pat"]):
+                    dist_locals.add(b["local"])
+        ifs = [y for y in walk(clo["body"]) if y.get("k") == "If" and y.get("else") is not None]
+        if not ifs:
+            continue
+        iff = ifs[0]
+        cond = strip(iff["c"])
+        if cond.get("k") != "Binary" or cond["op"] not in ("<", "<=", ">", ">="):
+            continue
+
+        def is_cand(e):
+            e = peel_refs(e)
+            return (e.get("k") == "Path" and e.get("local") in dist_locals) or (e.get("k") == "MethodCall" and e["name"] == "rdistance")
+
+        def is_inc(e):
+            e = peel_refs(e)
+            while e.get("k") == "Field":
+                e = peel_refs(e["e"])
+            return e.get("k") == "Path" and e.get("local") in accs
+        l, rr = cond["l"], cond["r"]
+        verdict = None
+        if is_cand(l) and is_inc(rr):
+            verdict = {"<": "strict", "<=": "weak", ">": "reversed", ">=": "reversed"}[cond["op"]]
+        elif is_inc(l) and is_cand(rr):
+            verdict = {">": "strict", ">=": "weak", "<": "reversed", "<=": "reversed"}[cond["op"]]
+        then = strip(iff["then"])
+        if then.get("k") == "Block" and then.get("e") is not None:
+            then = strip(then["e"])
+        pair = then.get("k") == "Tup" and len(then["es"]) == 2 and any(y.get("k") == "Path" and y.get("local") in items for y in walk(then["es"][0])) and is_cand(then["es"][1])
+        # coverage of the centroid rows
+        names = []
+        e = strip(n["recv"])
+        while e.get("k") == "MethodCall":
+            names.append(e["name"])
+            e = strip(e["recv"])
+        chain = r.e(n["recv"])
+        bad = [x for x in names if x in ("take", "step_by", "filter", "rev", "skip_while", "take_while")]
+        coverage = "ok" if any(x in names for x in ("rows", "outer_iter", "axis_iter", "genrows")) and not bad else ("bad" if bad else "unknown")
+        if "skip" in names and coverage == "ok":
+            # skipping the first row is sound only if the fold starts from row 0 as the incumbent
+            init = n["args"][0]
+            inits = {}
+            for y in walk(fn["body"]):
+                if y.get("k") == "LetStmt" and y.get("init") is not None and y["pat"].get("k") == "Bind":
+                    inits[y["pat"]["local"]] = y["init"]
+            i0 = peel_refs(init)
+            if i0.get("k") == "Path" and i0.get("local") in inits:
+                i0 = peel_refs(inits[i0["local"]])
+            txt = r.e(i0)
+            skip_arg = [y for y in walk(n["recv"]) if y.get("k") == "MethodCall" and y["name"] == "skip"]
+            one = skip_arg and peel_refs(skip_arg[0]["args"][0]).get("v") == "1"
+            row0 = i0.get("k") == "Tup" and len(i0["es"]) == 2 and peel_refs(i0["es"][0]).get("v") == "0" and ".row(0)" in txt.replace(" ", "") and "rdistance" in txt
+            coverage = "ok" if (one and row0) else "bad"
+        return {"cond": r.e(cond), "verdict": verdict, "pair": bool(pair), "coverage": coverage, "chain": chain, "ln": n.get("ln")}
+    return None
+
+
 def rule_argmin(ctx):
     res = RuleResult("R-C09-argmin", "one scan function serves fit/fit_with/predict/transform; it keeps the smaller rdistance, index and distance together, over all centroid rows")
     F = ctx.facts()
@@ -59,55 +134,85 @@ def rule_argmin(ctx):
                         cmps.append((e, g, t))
         if cmps:
             scans.append((fn, tr, cmps))
-    if len(scans) != 1:
+    fold_info = None
+    if not scans:
+        for fn in fns:
+            info = fold_scan(fn)
+            if info is not None:
+                fold_info = (fn, info)
+                break
+    if fold_info is None and len(scans) != 1:
         res.undecided("linfa_clustering::k_means : scan-functions", "expected exactly one function comparing two rdistance values (the arg-min scan), found %s" % [fn_key(s[0]) for s in scans])
         return res.finish(6)
-    scan, tr, cmps = scans[0]
-    skey = fn_key(scan)
-    res.instance("scan function: %s" % skey)
-    res.ok()
-    # (b) inside the scan
-    upd = [e for e in tr.events if e.kind == "assign" and e.guards and e.loops]
-    by_guard = {}
-    for e in upd:
-        by_guard.setdefault(e.guards[-1][1], []).append(e)
-    good = False
-    for gk, evs in by_guard.items():
-        g = evs[0].guards[-1]
-        cm = [t for t in walk_terms(g[3]) if isinstance(t, Cmp)]
-        if not cm:
-            continue
-        verdict = cm[0].asserts_less(lambda a: "loopvar:" in a and "call:rdistance" in a, lambda b: "call:rdistance" in b and "loopvar:" not in b)
-        if g[0] == "-" and verdict in ("strict", "weak"):
-            verdict = "reversed"
-        res.instance("%s : incumbent replaced under %s" % (skey, gk[:90]))
-        if verdict in ("strict", "weak"):
-            vals = [k(e.val) for e in evs]
-            has_idx = any(v.startswith("loopvar:") for v in vals)
-            has_dist = any("call:rdistance" in v and "loopvar:" in v for v in vals)
-            if has_idx and has_dist and len(evs) == 2:
-                res.ok()
-                good = True
-                res.sample({"scan": skey, "replace_when": "candidate rdistance %s incumbent" % ("<" if verdict == "strict" else "<="), "updates": [e.lhs for e in evs]})
-            else:
-                res.violate("%s : partial-update" % skey, "index and distance are not replaced together under the comparison (writes: %s)" % [e.lhs for e in evs], fn_loc(scan, evs[0].node["ln"]))
-        elif verdict == "reversed":
-            res.violate("%s : direction" % skey, "the incumbent is replaced when the candidate is LARGER: %s" % gk[:120], fn_loc(scan, evs[0].node["ln"]))
-    if not good and not res.violations:
-        res.undecided("%s : no-replacement" % skey, "no guarded replacement of (index, distance) found in the scan", fn_loc(scan))
-    # covers every centroid row: loop iterator derives from rows()/outer_iter()/axis_iter of the centroids parameter without skip/take/step_by
-    loops = [e.loops[-1] for e in upd if e.loops]
-    if loops:
-        it = loops[0][2]
-        ik = k(it)
-        res.instance("%s : scan iterator %s" % (skey, ik[:90]))
-        if "param:centroids" in ik and not any(x in ik for x in ("call:skip", "call:take", "call:step_by", "call:rev(", "call:filter")) and any(x in ik for x in ("call:rows", "call:outer_iter", "call:axis_iter", "call:genrows")):
+    if fold_info is not None:
+        scan, info = fold_info
+        skey = fn_key(scan)
+        res.instance("scan function: %s (fold form)" % skey)
+        res.ok()
+        res.instance("%s : incumbent replaced under %s" % (skey, info["cond"][:90]))
+        if info["verdict"] in ("strict", "weak") and info["pair"]:
             res.ok()
+            res.sample({"scan": skey, "replace_when": "candidate rdistance %s incumbent" % ("<" if info["verdict"] == "strict" else "<="), "form": "fold"})
+        elif info["verdict"] == "reversed":
+            res.violate("%s : direction" % skey, "the incumbent is replaced when the candidate is LARGER: %s" % info["cond"][:120], fn_loc(scan, info["ln"]))
+        elif not info["pair"]:
+            res.violate("%s : partial-update" % skey, "index and distance are not replaced together under the comparison", fn_loc(scan, info["ln"]))
         else:
-            res.violate("%s : coverage" % skey, "the scan does not iterate over all rows of the centroid matrix: %s" % ik[:120], fn_loc(scan))
-    # returns the pair
-    rk = k(tr.result)
-    res.instance("%s : returns %s" % (skey, rk[:80]))
+            res.undecided("%s : no-replacement" % skey, "the fold's replacement rule was not understood", fn_loc(scan, info["ln"]))
+        res.instance("%s : scan iterator %s" % (skey, info["chain"][:90]))
+        if info["coverage"] == "ok":
+            res.ok()
+        elif info["coverage"] == "bad":
+            res.violate("%s : coverage" % skey, "the scan does not iterate over all rows of the centroid matrix: %s" % info["chain"][:120], fn_loc(scan, info["ln"]))
+        else:
+            res.undecided("%s : coverage-form" % skey, "coverage of the centroid rows not established: %s" % info["chain"][:120], fn_loc(scan, info["ln"]))
+    else:
+        scan, tr, cmps = scans[0]
+        skey = fn_key(scan)
+        res.instance("scan function: %s" % skey)
+        res.ok()
+        # (b) inside the scan
+        upd = [e for e in tr.events if e.kind == "assign" and e.guards and e.loops]
+        by_guard = {}
+        for e in upd:
+            by_guard.setdefault(e.guards[-1][1], []).append(e)
+        good = False
+        for gk, evs in by_guard.items():
+            g = evs[0].guards[-1]
+            cm = [t for t in walk_terms(g[3]) if isinstance(t, Cmp)]
+            if not cm:
+                continue
+            verdict = cm[0].asserts_less(lambda a: "loopvar:" in a and "call:rdistance" in a, lambda b: "call:rdistance" in b and "loopvar:" not in b)
+            if g[0] == "-" and verdict in ("strict", "weak"):
+                verdict = "reversed"
+            res.instance("%s : incumbent replaced under %s" % (skey, gk[:90]))
+            if verdict in ("strict", "weak"):
+                vals = [k(e.val) for e in evs]
+                has_idx = any(v.startswith("loopvar:") for v in vals)
+                has_dist = any("call:rdistance" in v and "loopvar:" in v for v in vals)
+                if has_idx and has_dist and len(evs) == 2:
+                    res.ok()
+                    good = True
+                    res.sample({"scan": skey, "replace_when": "candidate rdistance %s incumbent" % ("<" if verdict == "strict" else "<="), "updates": [e.lhs for e in evs]})
+                else:
+                    res.violate("%s : partial-update" % skey, "index and distance are not replaced together under the comparison (writes: %s)" % [e.lhs for e in evs], fn_loc(scan, evs[0].node["ln"]))
+            elif verdict == "reversed":
+                res.violate("%s : direction" % skey, "the incumbent is replaced when the candidate is LARGER: %s" % gk[:120], fn_loc(scan, evs[0].node["ln"]))
+        if not good and not res.violations:
+            res.undecided("%s : no-replacement" % skey, "no guarded replacement of (index, distance) found in the scan", fn_loc(scan))
+        # covers every centroid row: loop iterator derives from rows()/outer_iter()/axis_iter of the centroids parameter without skip/take/step_by
+        loops = [e.loops[-1] for e in upd if e.loops]
+        if loops:
+            it = loops[0][2]
+            ik = k(it)
+            res.instance("%s : scan iterator %s" % (skey, ik[:90]))
+            if "param:centroids" in ik and not any(x in ik for x in ("call:skip", "call:take", "call:step_by", "call:rev(", "call:filter")) and any(x in ik for x in ("call:rows", "call:outer_iter", "call:axis_iter", "call:genrows")):
+                res.ok()
+            else:
+                res.violate("%s : coverage" % skey, "the scan does not iterate over all rows of the centroid matrix: %s" % ik[:120], fn_loc(scan))
+        # returns the pair
+        rk = k(tr.result)
+        res.instance("%s : returns %s" % (skey, rk[:80]))
     # (a) every public entry reaches the scan through workspace calls
     by_raw = {(f["d"]["krate"], f["d"].get("raw")): f for f in fns}
     target = (scan["d"]["krate"], scan["d"].get("raw"))
